@@ -76,7 +76,9 @@ def generate(rng, tier):
             ops.append({"t": t_upd, "op": "update", "h": "R", "svc": v2, "mutate": inplace})
             stale = not inplace and rng.random() < 0.7
     if mode == "close":
-        ops.append({"t": t_w, "op": "close", "h": "R"})
+        # (a third of these withdraw everything through async_unregister_all_services and keep the instance: the same
+        # goodbye, but the multicast queues live on)
+        ops.append({"t": t_w, "op": "unregister_all" if rng.random() < 0.35 else "close", "h": "R"})
         if len(svcs) > 1 and t_ready < t_w - 0.3 and rng.random() < 0.3:
             # components withdraw their own services shortly before the application closes the instance: the shutdown
             # has to let every goodbye sequence that is going out finish (unregistering *after* the close was requested
@@ -94,7 +96,7 @@ def generate(rng, tier):
     for _ in range(rng.choice([0, 1, 2])):
         ops.append(_query_op(rng, t_w + rng.choice([0.0, 0.05, 0.13, 0.26, 0.4, 1.0, 2.0]), svcs, victim))
     reregister = None
-    if any(o["op"] == "close" for o in ops):
+    if any(o["op"] in ("close", "unregister_all") for o in ops):
         pass  # nothing is registered on an instance that is being closed
     elif mode == "unregister" and rng.random() < 0.2:
         reregister = t_w + rng.choice([0.3, 0.6, 1.5])
@@ -179,7 +181,7 @@ def _oracle(w, drv, sc, out):
             timeline.append((e["t_call"], "upd", e["svc"]))
         elif e["op"] == "unregister":
             timeline.append((e["t_call"], "unreg", e["args"]))
-        elif e["op"] == "close":
+        elif e["op"] in ("close", "unregister_all"):
             timeline.append((e["t_call"], "close", None))
     timeline.sort(key=lambda x: x[0])
     reg = {}
